@@ -34,8 +34,11 @@ type signatureDTO[S algebra.PrimeFieldElement[S]] struct {
 }
 
 // NewSignature creates a Signature from r, s values and an optional recovery ID.
-// Both r and s must be non-zero. If provided, v must be in the range [0, 3].
+// Both r and s must be non-nil and non-zero. If provided, v must be in the range [0, 3].
 func NewSignature[S algebra.PrimeFieldElement[S]](r, s S, v *int) (*Signature[S], error) {
+	if utils.IsNil(r) || utils.IsNil(s) {
+		return nil, signatures.ErrInvalidArgument.WithMessage("r/s cannot be nil")
+	}
 	if r.IsZero() || s.IsZero() {
 		return nil, signatures.ErrFailed.WithMessage("r/s cannot be zero")
 	}
@@ -151,6 +154,9 @@ func (sig *Signature[S]) UnmarshalCBOR(data []byte) error {
 	dto, err := serde.UnmarshalCBOR[*signatureDTO[S]](data)
 	if err != nil {
 		return errs.Wrap(err).WithMessage("failed to unmarshal ECDSA signature")
+	}
+	if dto == nil {
+		return signatures.ErrInvalidArgument.WithMessage("ECDSA signature cannot be null")
 	}
 	sig2, err := NewSignature(dto.R, dto.S, dto.V)
 	if err != nil {
